@@ -194,8 +194,8 @@ def _out_of_range(rng, what):
 
 
 def gen_cases(rng, tier):
-    n_valid = 150 if tier == 'quick' else 1500
-    n_out = 5 if tier == 'quick' else 30
+    n_valid = 120 if tier == 'quick' else 1500
+    n_out = 4 if tier == 'quick' else 30
     cases = []
     # fixed seeds of the space: minimal, and the point-count boundary 10 / 11
     for npts in (10, 11):
